@@ -63,3 +63,13 @@ def register(claim):
           "the dict-equality ignore set is exactly {8,9,10,35}; nothing reorders the map or the group lists.",
           NOTE_COMMON + " Known finding: container == container goes through a non-injective rendering. Step-by-step agreement with a reference model and pickling are not decided.",
           "DESIGN.md#c18")
+
+    claim("C10", "exception-escape analysis over the decoder's CFG (guard facts, cut-reachability, callee raise sets, group-context typestate), return-path classification, dominance of the checksum test",
+          "Static, all byte strings: with silent=True every int()/unpack/index/lookup/raising callee/group-context attribute access in "
+          "Codec.decode is dominated by a guard that excludes the raising input or enclosed by a handler; each return path's consumed "
+          "length is a sum of frame start, non-negative frame length or buffer length; the message path consumes > 0 and the reader "
+          "leaves its decode loop only without progress; the message return is gated by a flag set only on checksum equality; "
+          "malformed verdicts never report the whole buffer.",
+          NOTE_COMMON + " Known finding (pinned by a test): BodyLength is not compared with the frame, so a sum-preserving corruption is returned. "
+          "'No single-byte corruption is ever returned' as arithmetic over all frames is not decided.",
+          "DESIGN.md#c10")
